@@ -282,6 +282,7 @@ func CheckMain(root, id, tier string, seed uint64) int {
 		}
 	}
 	o := &orchOpts{root: root, prop: p, tier: tier, seed: seed, workers: ncpu, secs: secs}
+	os.MkdirAll(filepath.Join(root, ".build"), 0o755) //nolint:errcheck
 	dir, err := os.MkdirTemp(filepath.Join(root, ".build"), "run-"+id+"-")
 	if err != nil {
 		fmt.Fprintln(os.Stderr, err)
